@@ -1,27 +1,48 @@
 import MiniconfVerif.Model.PackedDriver
 import MiniconfVerif.Model.PathDriver
+import MiniconfVerif.Model.TreeDriver
 
 open MiniconfVerif
 
+structure DState where
+  schemas : Array (Nat × Schema) := #[]
+
+def DState.schema? (st : DState) (tid : Nat) : Option Schema :=
+  (st.schemas.find? (·.1 == tid)).map (·.2)
+
 /-- `<stream> <case-id> <args…>` in, `<case-id> <canonical outcome>` out -/
-def handle (line : String) : String :=
+def handle (st : DState) (line : String) : DState × String :=
   match line.trimAscii.toString.splitOn " " with
   | stream :: id :: args =>
-    let out := match stream with
-      | "pk" => PackedDriver.run args
-      | "st" => PathDriver.run args
-      | _ => "bad-op"
-    s!"{id} {out}"
-  | _ => "? bad-op"
+    match stream with
+    | "pk" => (st, s!"{id} {PackedDriver.run args}")
+    | "st" => (st, s!"{id} {PathDriver.run args}")
+    | "T" =>
+      match args with
+      | tid :: rest =>
+        match tid.toNat?, TreeDriver.parseSchema rest with
+        | some tid, some (s, []) => ({ st with schemas := st.schemas.push (tid, s) }, s!"{id} decl")
+        | _, _ => (st, s!"{id} bad-op")
+      | _ => (st, s!"{id} bad-op")
+    | "tk" =>
+      match args with
+      | tid :: rest =>
+        match tid.toNat?.bind st.schema? with
+        | some s => (st, s!"{id} {TreeDriver.runOp s rest}")
+        | none => (st, s!"{id} bad-op")
+      | _ => (st, s!"{id} bad-op")
+    | _ => (st, s!"{id} bad-op")
+  | _ => (st, "? bad-op")
 
-partial def loop (h : IO.FS.Stream) (out : IO.FS.Stream) : IO Unit := do
+partial def loop (h : IO.FS.Stream) (out : IO.FS.Stream) (st : DState) : IO Unit := do
   let line ← h.getLine
   if line.isEmpty then return ()
-  if line.trimAscii.toString.isEmpty then loop h out else
-  out.putStrLn (handle line)
-  loop h out
+  if line.trimAscii.toString.isEmpty then loop h out st else
+  let (st', o) := handle st line
+  out.putStrLn o
+  loop h out st'
 
 def main : IO Unit := do
   let stdin ← IO.getStdin
   let stdout ← IO.getStdout
-  loop stdin stdout
+  loop stdin stdout {}
